@@ -28,6 +28,8 @@ let () =
   let next () = match !lines with [] -> None | l :: t -> lines := t; Some (tokens l) in
   let hs : (int, sstate) Hashtbl.t = Hashtbl.create 16 in
   let tree : (int, snap) Hashtbl.t = Hashtbl.create 16 in
+  (* content of the layer a handle is attached to (for the invariant Sync, evaluated after every operation) *)
+  let bases : (int, account fmap) Hashtbl.t = Hashtbl.create 16 in
   let labels : (string, int) Hashtbl.t = Hashtbl.create 16 in
   let contents : (int, account fmap) Hashtbl.t = Hashtbl.create 16 in
   let ua = ref [] and uk = ref [] in
@@ -111,12 +113,12 @@ let () =
     | None -> ()
     | Some [] -> loop ()
     | Some ("CASE" :: id :: "A" :: a1 :: a2 :: a3 :: "K" :: k1 :: k2 :: k3 :: _) ->
-      Hashtbl.reset hs; Hashtbl.reset labels; Hashtbl.reset contents; Hashtbl.reset tree;
+      Hashtbl.reset hs; Hashtbl.reset labels; Hashtbl.reset contents; Hashtbl.reset tree; Hashtbl.reset bases;
       ua := [n a1; n a2; n a3]; uk := [n k1; n k2; n k3];
       ignore (label_of fempty);
       (* snapshot.New on the empty database: one disk layer for the empty root (label 0), generator finished *)
       Hashtbl.replace tree 0 { sn_diffs = []; sn_disk = empty_disk (n_of_int 0) };
-      Hashtbl.replace hs 0 (snew_state fempty (layer_of 0));
+      Hashtbl.replace hs 0 (snew_state fempty (layer_of 0)); Hashtbl.replace bases 0 fempty;
       Printf.printf "CASE %s\n" id; loop ()
     | Some (hstr :: code :: rest) ->
       let h = int_of_string hstr in
@@ -165,12 +167,15 @@ let () =
               | None -> ())     (* "parent snapshot missing" *)
            | _ -> ());
           Printf.sprintf "r%d" root
-        | "CP", [nh] -> Hashtbl.replace hs (int_of_string nh) (scopy (st ())); "-"
+        | "CP", [nh] ->
+          Hashtbl.replace hs (int_of_string nh) (scopy (st ()));
+          (match Hashtbl.find_opt bases h with Some b -> Hashtbl.replace bases (int_of_string nh) b | None -> ());
+          "-"
         | "NW", [nh; lab] ->
           (* a label the model never produced can only follow an earlier model/impl mismatch *)
           let l = int_of_string lab in
           let c = (match Hashtbl.find_opt contents l with Some c -> c | None -> fempty) in
-          Hashtbl.replace hs (int_of_string nh) (snew_state c (layer_of l)); "-"
+          Hashtbl.replace hs (int_of_string nh) (snew_state c (layer_of l)); Hashtbl.replace bases (int_of_string nh) c; "-"
         | "KP", [lab; layers] ->
           let l = int_of_string lab and k = nat_of_int (int_of_string layers) in
           (match Hashtbl.find_opt tree l with
@@ -185,6 +190,11 @@ let () =
         | _ -> failwith ("bad line: " ^ String.concat " " (hstr :: code :: rest)) in
       let crashed = (Hashtbl.find hs h).ss_st.st_crashed in
       let res = if crashed then "CRASH" else res in
+      (* the invariant Sync (ProofsSnapBridge.v) of every attached StateDB this line touched *)
+      let sync_of hh = (match Hashtbl.find_opt hs hh, Hashtbl.find_opt bases hh with
+          | Some s, Some b when s.ss_snap <> None -> sync_ok !ua !uk b s
+          | _ -> true) in
+      let res = if sync_of h then res else "UNSYNC " ^ res in
       print_endline (res ^ "|" ^ dump h spec); loop ()
     | Some l -> failwith ("bad line: " ^ String.concat " " l)
   in
